@@ -392,6 +392,18 @@ def check_program(case):
     if clash and any(o[1] in clash for o in case["occ"]):
         # (same table name in two schemas: both are addressed as "name" - the references cannot be told apart)
         return [(mksig("any", case["kind"], "ambiguous_source_name"), "sources %r are all addressed as %r in %r" % (clash, [n for n, ks in names.items() if len(ks) > 1], sql))]
+    # a name that qualifies references is a name the statement defines: an explicit or automatic alias stands, at least once, where it is
+    # not a qualifier (after its source in FROM / JOIN / UPDATE / INTO)
+    for key in case["sources"]:
+        spec = POOL[key]
+        alias = (spec[3] if spec[0] == "tbl" else (spec[2] if spec[0] == "sub" else None)) or an.get(key)
+        if not alias or spec[0] == "cte":
+            continue
+        qualifies = any(t.kind == "qid" and t.value == alias and i + 1 < len(toks) and toks[i + 1].kind == "punct" and toks[i + 1].text == "." for i, t in enumerate(toks))
+        defined = any(t.kind == "qid" and t.value == alias and not (i + 1 < len(toks) and toks[i + 1].kind == "punct" and toks[i + 1].text == ".") for i, t in enumerate(toks))
+        if qualifies and not defined:
+            out.append((mksig("any", case["kind"], "alias_not_defined", spec[0]), "references are qualified with %r, but the statement never gives that name to a source: %r" % (alias, sql)))
+            return out
     corr = [o for o in case["occ"] if o[2] in ("corr_outer", "corr_inner")]
     if corr:
         # one name, two references in operand order: the qualifiers must be those of the two sources, in that order
